@@ -22,4 +22,40 @@ theorem C18_gen_mergeLowercases : Generated.headerMergeLowercasesKeys = some tru
     whatever the kind of the propagating exception). -/
 theorem C18_gen_blockFinally : Generated.headersBlockPopInFinally = some true := by decide
 
+/- ====================================================================================================
+   Section added for "User-Agent is the configured one": facts of tools/extractors/headers2.py
+   (jsonrpclib/config.py `Config.__init__` / `Config.copy`; jsonrpclib/jsonrpc.py `TransportMixIn.__init__`,
+   `send_content`, the transports' constructors, `ServerProxy.__init__`).
+   ==================================================================================================== -/
+
+/-- What `Config.__init__` does with its `user_agent` argument is what `Headers.configInit` does: the argument is stored
+    as it is, and replaced by the default exactly when it is `None` (not when it is merely falsy). -/
+theorem C18_gen_configAgentDefaulting :
+    ∃ r, Generated.configAgentDefaulting = some r ∧ ∀ dflt v, applyRule r dflt v = some (configInit dflt v) :=
+  ⟨"is-none", by decide, by intro dflt v; cases v <;> simp [applyRule, configInit]⟩
+
+/-- `Config.copy` hands `self.user_agent`, unconverted, to the constructor's `user_agent` parameter
+    (`Headers.cfgStep … .copy` = `configInit` of the attribute). -/
+theorem C18_gen_configCopyAgent :
+    ∃ r, Generated.configCopyAgent = some r ∧
+      ∀ dflt attr, (applyRule r dflt attr).map (configInit dflt) = some (cfgStep dflt attr .copy) :=
+  ⟨"verbatim", by decide, by intro dflt attr; simp [applyRule, cfgStep]⟩
+
+/-- `TransportMixIn.__init__` stores `config.user_agent` as it is (`Headers.transportAgent`). -/
+theorem C18_gen_transportAgent :
+    ∃ r, Generated.transportAgentFromConfig = some r ∧ ∀ dflt v, applyRule r dflt v = some (transportAgent v) :=
+  ⟨"verbatim", by decide, by intro dflt v; simp [applyRule, transportAgent]⟩
+
+/-- The `User-Agent` line of `send_content` carries the transport's `user_agent` attribute, unconverted
+    (`Headers.sendContentCfg` passes `transportAgent …` on). -/
+theorem C18_gen_sendsTransportAgent : Generated.sendContentSendsTransportAgent = some true := by decide
+
+/-- `Transport`, `SafeTransport` and `UnixTransport` give their `config` to `TransportMixIn.__init__`. -/
+theorem C18_gen_transportsForwardConfig :
+    Generated.transportsForwardConfig = some (transports.map fun t => (t, true)) := by decide
+
+/-- Every transport `ServerProxy.__init__` builds gets the proxy's own `config`. -/
+theorem C18_gen_proxyTransportsGetConfig :
+    Generated.proxyTransportsGetConfig = some (transports.map fun t => (t, true)) := by decide
+
 end JRV.Props
